@@ -10,7 +10,8 @@ package main
 // on a pointer receiver (111 when called with `null`), 102 UnmarshalText on a pointer receiver, 103 / 113 / 104 the same
 // on value receivers (visible only through a non-nil slice or map).
 // The CANONICAL DOCUMENT of the value is written by kind alone (dzDoc; the Lean driver computes the same text from the
-// descriptor) and unmarshalled
+// descriptor; of the members with the same name — cycles of embedded pointers — the shallowest one is written) and
+// unmarshalled
 //   full   into a fresh target          fullp  into a target pre-filled with the canonical value
 //   n0/n1/n2  pre-filled target, every value at JSON depth 0/1/2 replaced by null
 //   alt    fresh target, the two forms of byte slices (base64 string / array of numbers) swapped
@@ -168,6 +169,83 @@ type DRE2[G any] struct {
 	I []DRE1[G]
 }
 
+// the repair of jsonEmbeddedStructUnderConstruction (json/codec.go structType.root): a struct that embeds a struct type
+// which is under construction further up, through a REGULAR field, lists its fields a second time
+type DRB[G any] struct { // T struct{ X; F []struct{ T } } with unmarshaler leaves
+	X int
+	V DLJp[G]
+	F []struct{ DRB[G] }
+}
+type DRBp[G any] struct { // []struct{ *T }
+	X int
+	F []struct{ *DRBp[G] }
+}
+type DRM1[G any] struct { // mutual recursion
+	X int
+	F []struct{ DRM2[G] }
+}
+type DRM2[G any] struct {
+	Y DLTp[G]
+	H map[string]struct{ *DRM1[G] }
+}
+type DD1[G any] struct { // double embedding: DD2 embeds DD3 embeds DD1
+	X int
+	F []DD2[G]
+}
+type DD2[G any] struct{ DD3[G] }
+type DD3[G any] struct {
+	*DD1[G]
+	Z int
+}
+type DRQ[G any] struct { // promoted fields with the `string` option
+	X int      `json:",string"`
+	P *int     `json:",string"`
+	C DIJp[G]  `json:",string"`
+	S *DSTp[G] `json:",string"`
+	F []struct{ DRQ[G] }
+}
+type DRNp[G any] struct { // through a pointer field
+	Y DLJp[G]
+	P *struct{ DRNp[G] }
+	M map[string]*struct{ *DRNp[G] }
+}
+
+// what still differs from encoding/json: cycles made of EMBEDDED structs only (nothing is promoted where the cycle
+// closes, and the struct types built on the way are kept)
+type DX2[G any] struct {
+	*DY2[G]
+	A int
+	L []DY2[G]
+}
+type DY2[G any] struct {
+	*DX2[G]
+	B int
+}
+type DX3[G any] struct {
+	*DY3[G]
+	*DZ3[G]
+}
+type DY3[G any] struct {
+	*DX3[G]
+	B int
+}
+type DZ3[G any] struct{ C int }
+type DX4[G any] struct{ *DU4[G] }
+type DU4[G any] struct {
+	*DX4[G]
+	B int
+	F []struct{ DX4[G] }
+}
+
+type DP3[G any] struct { // the struct type of X3 built on the way (inside Y3) is kept for the regular field Q
+	P *DY3[G]
+	Q *DX3[G]
+}
+type DP4[G any] struct {
+	P *DU4[G]
+	Q *DX4[G]
+}
+
 // ---- the zoo -----------------------------------------------------------------------------------------------------------
 
 // dzPPForms: pointers to pointers to T
@@ -177,6 +255,19 @@ func dzPPForms[T any, G any](z T) []any {
 	p2 := &z
 	pp2 := &p2
 	return []any{pp, &pp, W[**T]{pp}, []**T{pp}, map[string]**T{"s": pp}, WA[**T]{pp2}, WNA[**T, G]{pp2}, WA[***T]{&pp2}, [1]**T{pp}}
+}
+
+// dzAddrForms: a value of type T in the positions where it is addressable for the construction (behind a pointer, as a
+// slice element, in an addressable struct). The cycles of embedded structs are decoded in these positions only: as a
+// non-addressable value the struct type of (T, false) promotes the fields of (T, true) again — the same JSON names at two
+// depths, which appendStructFields then filters (the shallower one wins); that filter is not part of the construction model
+// (Model/Json/Fields.lean). A pointer held by an interface is decoded through the cache entry of T itself: (T, false).
+func dzAddrForms[T any](z T) []any {
+	z2 := z
+	return []any{
+		&z, []T{z}, &W[T]{z}, WP[T]{&z2}, []*T{&z2}, map[string]*T{"s": &z2}, [1]*T{&z2},
+		&W[[1]T]{[1]T{z}}, &[]T{z}, W[[]T]{[]T{z}}, &[2]T{z, z},
+	}
 }
 
 func dzZoo[G any]() []any {
@@ -259,6 +350,25 @@ func dzZoo[G any]() []any {
 	r = append(r, czForms(czFilled[DRT[G]]())...)
 	r = append(r, czForms(czFilled[DRE1[G]]())...)
 	r = append(r, czForms(czFilled[DRE2[G]]())...)
+	// embedded struct types under construction: listed a second time
+	r = append(r, czForms(czFilled[DRB[G]]())...)
+	r = append(r, czForms(czFilled[DRBp[G]]())...)
+	r = append(r, czForms(czFilled[DRM1[G]]())...)
+	r = append(r, czForms(czFilled[DRM2[G]]())...)
+	r = append(r, czForms(czFilled[DD1[G]]())...)
+	r = append(r, czForms(czFilled[DD2[G]]())...)
+	r = append(r, czForms(czFilled[DD3[G]]())...)
+	r = append(r, czForms(czFilled[DRQ[G]]())...)
+	r = append(r, czForms(czFilled[DRNp[G]]())...)
+	// cycles of embedded structs: still different from encoding/json
+	r = append(r, dzAddrForms(czFilled[DX2[G]]())...)
+	r = append(r, dzAddrForms(czFilled[DY2[G]]())...)
+	r = append(r, dzAddrForms(czFilled[DX3[G]]())...)
+	r = append(r, dzAddrForms(czFilled[DY3[G]]())...)
+	r = append(r, dzAddrForms(czFilled[DX4[G]]())...)
+	r = append(r, dzAddrForms(czFilled[DU4[G]]())...)
+	r = append(r, dzAddrForms(czFilled[DP3[G]]())...)
+	r = append(r, dzAddrForms(czFilled[DP4[G]]())...)
 	return r
 }
 
@@ -393,8 +503,9 @@ func dzDoc(v reflect.Value, alt bool) dzJ {
 		return dzJ{kind: 'o', keys: []string{key}, elts: []dzJ{dzDoc(it.Value(), alt)}}
 	case reflect.Struct:
 		j := dzJ{kind: 'o'}
-		dzDocFields(v, alt, &j)
-		return j
+		var depths []int
+		dzDocFields(v, alt, &j, &depths, 0)
+		return dzShallowest(j, depths)
 	default:
 		if dzIsInt(k) {
 			return dzLit("7")
@@ -403,7 +514,26 @@ func dzDoc(v reflect.Value, alt bool) dzJ {
 	return dzJ{kind: 'n'}
 }
 
-func dzDocFields(v reflect.Value, alt bool, j *dzJ) {
+// dzShallowest: of the members with the same name (promoted through a cycle of embedded pointers) the shallowest one
+// is written, the first one of these
+func dzShallowest(j dzJ, depths []int) dzJ {
+	r := dzJ{kind: 'o'}
+	for i, k := range j.keys {
+		keep := true
+		for i2, k2 := range j.keys {
+			if k2 == k && (depths[i2] < depths[i] || (depths[i2] == depths[i] && i2 < i)) {
+				keep = false
+			}
+		}
+		if keep {
+			r.keys = append(r.keys, k)
+			r.elts = append(r.elts, j.elts[i])
+		}
+	}
+	return r
+}
+
+func dzDocFields(v reflect.Value, alt bool, j *dzJ, depths *[]int, depth int) {
 	t := v.Type()
 	for i := 0; i < t.NumField(); i++ {
 		f := t.Field(i)
@@ -420,7 +550,7 @@ func dzDocFields(v reflect.Value, alt bool, j *dzJ) {
 				}
 				fv = fv.Elem()
 			}
-			dzDocFields(fv, alt, j)
+			dzDocFields(fv, alt, j, depths, depth+1)
 			continue
 		}
 		d := dzDoc(v.Field(i), alt)
@@ -429,6 +559,7 @@ func dzDocFields(v reflect.Value, alt bool, j *dzJ) {
 		}
 		j.keys = append(j.keys, name)
 		j.elts = append(j.elts, d)
+		*depths = append(*depths, depth)
 	}
 }
 
@@ -518,6 +649,75 @@ var (
 	dzOrder []string
 )
 
+// dzEmbCycle: the struct type t lies on a cycle of embedded structs (through at most one unnamed pointer each)
+func dzEmbCycle(t reflect.Type) bool {
+	seen := map[reflect.Type]bool{}
+	var walk func(s reflect.Type) bool
+	walk = func(s reflect.Type) bool {
+		for i := 0; i < s.NumField(); i++ {
+			f := s.Field(i)
+			_, emb, _ := dzFieldName(f)
+			typ := f.Type
+			if typ.Kind() == reflect.Ptr && typ.Name() == "" {
+				typ = typ.Elem()
+			}
+			if !emb || typ.Kind() != reflect.Struct {
+				continue
+			}
+			if typ == t {
+				return true
+			}
+			if !seen[typ] {
+				seen[typ] = true
+				if walk(typ) {
+					return true
+				}
+			}
+		}
+		return false
+	}
+	return walk(t)
+}
+
+// dzHeldCycle: an interface in v holds a pointer to a struct type on a cycle of embedded structs. Such a pointer is
+// decoded through the cache entry of the struct type itself — the non-addressable construction, which promotes the
+// fields of the addressable one again: the same JSON names at two depths, left to the ambiguity filter of
+// appendStructFields (not part of the construction model, see dzAddrForms). Not decoded here.
+func dzHeldCycle(v reflect.Value) bool {
+	switch v.Kind() {
+	case reflect.Interface:
+		if v.IsNil() {
+			return false
+		}
+		e := v.Elem()
+		if e.Kind() == reflect.Ptr && e.Type().Elem().Kind() == reflect.Struct && dzEmbCycle(e.Type().Elem()) {
+			return true
+		}
+		return dzHeldCycle(e)
+	case reflect.Ptr:
+		return !v.IsNil() && dzHeldCycle(v.Elem())
+	case reflect.Slice, reflect.Array:
+		for i := 0; i < v.Len(); i++ {
+			if dzHeldCycle(v.Index(i)) {
+				return true
+			}
+		}
+	case reflect.Map:
+		for it := v.MapRange(); it.Next(); {
+			if dzHeldCycle(it.Value()) {
+				return true
+			}
+		}
+	case reflect.Struct:
+		for i := 0; i < v.NumField(); i++ {
+			if dzHeldCycle(v.Field(i)) {
+				return true
+			}
+		}
+	}
+	return false
+}
+
 func dzInit() {
 	dzOnce.Do(func() {
 		za, zb, zc := dzZoo[dzA](), dzZoo[dzB](), dzZoo[dzC]()
@@ -532,6 +732,9 @@ func dzInit() {
 			za[i], zb[i], zc[i] = czCanonical(za[i]), czCanonical(zb[i]), czCanonical(zc[i])
 			d := czDesc(za[i])
 			if strings.Contains(d, "chan") || strings.Contains(d, "complex") {
+				continue
+			}
+			if dzHeldCycle(reflect.ValueOf(&za[i]).Elem()) {
 				continue
 			}
 			if db := czDesc(zb[i]); db != d {
